@@ -101,7 +101,9 @@ func (r *Reader) GetValue(key []byte, readTs uint64) ([]byte, error) {
 	if err != nil {
 		return nil, err
 	}
-	if entry.Meta&kv.BitDelete > 0 || entry.Value == nil {
+	// The write record says Put: only a tombstone hides the value. An empty value is a
+	// value (the copy of a zero-length value is nil, which must not read as "absent").
+	if entry.Meta&kv.BitDelete > 0 {
 		return nil, utils.ErrKeyNotFound
 	}
 	return kv.SafeCopy(nil, entry.Value), nil
